@@ -305,10 +305,14 @@ def run(pid, tier="quick", seed=1, replay=None):
                 notes.append(f"{tag} build failed: {str(e)[-300:]}"); continue
             sub = cases if len(cases) <= 20000 else [cases[i] for i in sorted(rng.sample(range(len(cases)), 20000))]
             out2 = [canon_impl(l) for l in run_exe(exe2, [c.line for c in sub], work, "impl_" + tag, env=env)]
-            bad = 0; dis = 0
+            bad = 0; dis = 0; slow = 0
             mo_by_line = {c.line: m for c, m in zip(cases, model_out)}
+            impl_by_line = {c.line: m for c, m in zip(cases, impl_out)}
             for c, io in zip(sub, out2):
                 head = io.split()[0] if io else ""
+                if head == "TIMEOUT" and not impl_by_line.get(c.line, "").startswith("TIMEOUT"):
+                    # the plain build answered this request in time: the instrumented build is merely slower (counted, not a finding)
+                    slow += 1; continue
                 if head in ("SANITIZER", "CRASH", "TIMEOUT") and not getattr(mod, "ALLOW_" + head, False):
                     bad += 1
                     violations.append({"sig": f"{head}:{tag}:{c.line.split()[0]}", "msg": f"{tag} build: the implementation ended with {io} on this request", "case": c.line, "impl": io, "model": mo_by_line.get(c.line, "")})
@@ -322,7 +326,7 @@ def run(pid, tier="quick", seed=1, replay=None):
                     for v in pv:
                         sig, msg = v if isinstance(v, tuple) else (c.line.split()[0], v)
                         violations.append({"sig": sig, "msg": f"{tag} build: {msg}", "case": c.line, "impl": io, "model": mo_by_line.get(c.line, "")})
-            alt[tag] = {"cases": len(sub), "sanitizer_or_crash": bad, "disagree_with_model": dis}
+            alt[tag] = {"cases": len(sub), "sanitizer_or_crash": bad, "disagree_with_model": dis, "slower_than_the_time_limit_only_in_this_build": slow}
             if dis and tag == "asan":
                 broken.append({"kind": "correspondence", "what": f"{tag} build disagrees with the model on {dis} cases"})
             elif dis:
